@@ -229,18 +229,20 @@ fn check_open(text: &str, blocks: &[Block], body: &M, well_typed_expected: Optio
     }
 }
 
-fn programs(tier: Tier) -> Rc<Vec<(String, M, Rc<S>)>> {
+// The closed programs that start with a binder or a group. Only the shared surface trees are kept;
+// the text and the mirror term of a program are made when its case runs (the list has 1.5 M entries
+// in the thorough tier, and every worker process holds it).
+fn programs(tier: Tier) -> Rc<Vec<Rc<S>>> {
     let progs = sem::typed_programs(sem::typed_size(tier));
-    Rc::new(
-        progs
-            .iter()
-            .filter_map(|(_, s)| surface::resolve(s, &[]).ok().map(|m| (surface::print(s), m, s.clone())))
-            .filter(|(_, m, _)| matches!(m, M::Lam(..) | M::Let(..)))
-            // only programs the real parser accepts (its definition-order check rejects definitions
-            // that need their own value, on which type checking need not terminate)
-            .filter(|(text, _, _)| bind::with_front(text, &[], 2, |f| matches!(f, bind::Front::TypeErr { .. } | bind::Front::Ok { .. })))
-            .collect(),
-    )
+    Rc::new(progs.iter().filter(|(_, s)| matches!(**s, S::Lam { .. } | S::Let { .. })).map(|(_, s)| s.clone()).collect())
+}
+
+// Text and mirror term of a program, if the real parser accepts it (its definition-order check rejects
+// definitions that need their own value, on which type checking need not terminate).
+fn program(s: &S) -> Option<(String, M)> {
+    let m = surface::resolve(s, &[]).ok()?;
+    let text = surface::print(s);
+    bind::with_front(&text, &[], 2, |f| matches!(f, bind::Front::TypeErr { .. } | bind::Front::Ok { .. })).then_some((text, m))
 }
 
 fn peel_sweep(tier: Tier) -> Sweep {
@@ -250,7 +252,9 @@ fn peel_sweep(tier: Tier) -> Sweep {
         "closed programs peeled 1-3 binders deep, well typed and with every single-point perturbation of the open part",
         ps.len() as u64,
         move |idx| {
-            let (text, m, s) = &ps[idx as usize];
+            let s = &ps[idx as usize];
+            let Some((text, m)) = program(s) else { return };
+            let (text, m) = (&text, &m);
             count!("programs");
             for levels in 1..=3 {
                 let (blocks, body) = peel(m, levels);
@@ -289,7 +293,7 @@ fn peel_sweep(tier: Tier) -> Sweep {
                 crate::infra::sample("program", || json!(text));
             }
         },
-        move |idx| p2[idx as usize].0.clone(),
+        move |idx| surface::print(&p2[idx as usize]),
     )
     .with_post_abort(|_, kind| AbortVerdict::Violation {
         sub: "abnormal-ending".to_owned(),
@@ -376,7 +380,8 @@ pub fn unify_under_context_sweep(tier: Tier) -> Sweep {
         "holed patterns against instances under contexts with parameters and definitions",
         limit,
         move |idx| {
-            let (text, m, _) = &ps[idx as usize];
+            let Some((text, m)) = program(&ps[idx as usize]) else { return };
+            let (text, m) = (&text, &m);
             count!("programs");
             if crate::findings::is_known("F-HOLE-COPY") && crate::props::c12::has_recursive_definition(m) {
                 count!("skipped_recursive_instances");
@@ -435,7 +440,7 @@ pub fn unify_under_context_sweep(tier: Tier) -> Sweep {
                 }
             }
         },
-        move |idx| p2[idx as usize].0.clone(),
+        move |idx| surface::print(&p2[idx as usize]),
     )
 }
 
